@@ -17,7 +17,7 @@ def sh(cmd, cwd, timeout=1200):
 def demo_cmd(path, k):
     txt = open(path).read()
     for l in txt.splitlines()[:40]:
-        m = re.search(r"(cargo (\+nightly )?(miri )?test[^`\n]*)", l)
+        m = re.search(r"((MIRIFLAGS=(\S+|'[^']*'|\"[^\"]*\") )?cargo (\+nightly )?(miri )?test[^`\n]*)", l)
         if m:
             c = m.group(1).strip().rstrip(".")
             if "--offline" not in c:
